@@ -102,6 +102,15 @@ def run(ctx):
             lines = [poscmd(fen, ms[:k]), poscmd(fen, ms[:k + 1] + [bad] + ms[k + 1:k + 2]), poscmd(fen, ms[:k + 3]), poscmd(fen, ms[:k + 1]),
                      poscmd(fen, ms[:k + 1] + ms[k + 1:k + 2] + [bad]), poscmd(fen, ms)]
         sessions.append(lines)
+    # every proper prefix of a session that ends in a position command is a session too: the state after EVERY command is compared,
+    # not only the last one (a wrong intermediate state can be repaired by the next command)
+    seen_s = set(tuple(x) for x in sessions)
+    for lines in list(sessions):
+        for i in range(1, len(lines)):
+            pre = lines[:i]
+            if pre[-1].startswith("position") and tuple(pre) not in seen_s:
+                seen_s.add(tuple(pre))
+                sessions.append(pre)
     # engine over the pipe
     eng_states = []
     for lines in sessions:
